@@ -69,6 +69,10 @@ func c15SettingsProperty(t *rapid.T) {
 		if add, err = c15Dict(spec + "FIX50SP2.xml"); err != nil {
 			t.Fatalf("harness: %v", err)
 		}
+	} else if rapid.IntRange(0, 3).Draw(t, "no-dictionary") == 0 {
+		// no dictionary configured: the switches about field content (values present, header fields
+		// before body fields) still apply, the dictionary-based ones have nothing to go by
+		c.Class("settings-route:no-dictionary")
 	} else {
 		cfg.settings[config.DataDictionary] = spec + dictForBegin[begin] + ".xml"
 		if add, err = c15Dict(spec + dictForBegin[begin] + ".xml"); err != nil {
